@@ -737,9 +737,6 @@ func c20throttleGraph(c *c20ctx, trailing bool) {
 			// look too early (seen in the thorough tier, which keeps the scheduling points before releases).
 			// Consumers that are slow to come back are the business of the script families.
 			k := vrt.Choose(3)
-			if k == 1 && !vrt.ThreadParked(consumer) {
-				k = 0
-			}
 			switch k {
 			case 0:
 				mm.trace = append(mm.trace, fmt.Sprintf("Call@%d", now()))
@@ -751,7 +748,8 @@ func c20throttleGraph(c *c20ctx, trailing bool) {
 				}
 				th.Call()
 			case 1:
-				vrt.Advance(2 * unit)
+				// (the condition is evaluated in the same step as the clock movement, after the scheduling point)
+				vrt.AdvanceIf(2*unit, func() bool { return vrt.ThreadParked(consumer) })
 			case 2:
 				th.Cancel()
 				mm.cancelled = true
